@@ -3,7 +3,8 @@
    hash of this file's statements. *)
 From CKB Require Import Arith.U Arith.Compact Arith.Rational Arith.Epoch Arith.EpochExt Arith.DefaultParams.
 From CKB Require Import Arith.EpochExtProofs Arith.EpochProofs Arith.ParamsOk Arith.CompactProofs Arith.RationalProofs.
-From CKB Require Import Arith.NextEpochProofs Arith.FormulaProofs Arith.EpochChainProofs.
+From CKB Require Import Arith.NextEpochProofs Arith.FormulaProofs Arith.EpochChainProofs Arith.RsProofs.
+From CKB Require Import gen.RsC07.
 From Coq Require Import Sorted.
 Local Open Scope N_scope.
 
@@ -340,6 +341,18 @@ Theorem c07_issuance_constants_ok :
   0 < DEFAULT_EPOCH_DURATION_TARGET /\ MILLISECONDS_IN_A_SECOND = 1000.
 Proof. exact issuance_constants_ok. Qed.
 
+(* ---- functions translated from the Rust text on every run (tools/rs2v.py) are the models ---- *)
+Theorem c07_rs_bounding_epoch_length_eq : forall P len last,
+  rs_bounding_epoch_length (p_max_epoch_length P) (p_min_epoch_length P) (p_tau P) len last
+  = bounding_epoch_length P len last.
+Proof. exact rs_bounding_epoch_length_eq. Qed.
+
+Theorem c07_rs_is_successor_of_eq : forall s p, rs_is_successor_of s p = Some (enf_is_successor_of s p).
+Proof. exact rs_is_successor_of_eq. Qed.
+
+Theorem c07_rs_is_well_formed_eq : forall v, rs_is_well_formed v = Some (enf_is_well_formed v).
+Proof. exact rs_is_well_formed_eq. Qed.
+
 Redirect "out/C07.c07_epoch_rewards_sum" Print Assumptions c07_epoch_rewards_sum.
 Redirect "out/C07.c07_epoch_primary_rewards_sum" Print Assumptions c07_epoch_primary_rewards_sum.
 Redirect "out/C07.c07_epoch_secondary_issuance_sum" Print Assumptions c07_epoch_secondary_issuance_sum.
@@ -391,3 +404,6 @@ Redirect "out/C07.c07_number_with_fraction_successor_next_epoch" Print Assumptio
 Redirect "out/C07.c07_enf_constants_match" Print Assumptions c07_enf_constants_match.
 Redirect "out/C07.c07_diff_two_matches" Print Assumptions c07_diff_two_matches.
 Redirect "out/C07.c07_issuance_constants_ok" Print Assumptions c07_issuance_constants_ok.
+Redirect "out/C07.c07_rs_bounding_epoch_length_eq" Print Assumptions c07_rs_bounding_epoch_length_eq.
+Redirect "out/C07.c07_rs_is_successor_of_eq" Print Assumptions c07_rs_is_successor_of_eq.
+Redirect "out/C07.c07_rs_is_well_formed_eq" Print Assumptions c07_rs_is_well_formed_eq.
